@@ -13,6 +13,8 @@ import (
 	"strconv"
 	"strings"
 
+	"golang.org/x/sys/unix"
+
 	"verif/harness/common"
 )
 
@@ -144,6 +146,11 @@ func traceRules(evs []sysEvent, callFlags int, haveFlags bool, result string) []
 					}
 				}
 			}
+		case "returned":
+			// the File was handed to the caller: it must be locked now, not only earlier
+			if locked == "" {
+				bad = append(bad, fmt.Sprintf("lock-not-held-at-return flags=%d", callFlags))
+			}
 		case "ftruncate", "read", "write", "pwrite64":
 			if locked == "" {
 				bad = append(bad, e.Name+"-outside-lock")
@@ -201,6 +208,14 @@ func protoCases(rng *common.RNG, tier, prop string) []protoCase {
 	if prop == "C07" {
 		return cs
 	}
+	// non-regular targets (O_RDWR so that the FIFO open does not block): the Truncate of the
+	// O_TRUNC calls fails there and is ignored; the File must still be locked when returned
+	for _, f := range []string{"fifo", "chardev"} {
+		cs = append(cs, protoCase{"create", "-", f}, protoCase{"edit", "-", f}, protoCase{"mutex", "-", f},
+			protoCase{"openfile", strconv.Itoa(os.O_RDWR | os.O_TRUNC), f},
+			protoCase{"openfile", strconv.Itoa(os.O_RDWR | os.O_CREATE | os.O_TRUNC | os.O_APPEND), f},
+			protoCase{"openfile", strconv.Itoa(os.O_RDWR), f})
+	}
 	for _, acc := range []int{0, 1, 2, 3} {
 		for _, cr := range []int{0, os.O_CREATE} {
 			for _, tr := range []int{0, os.O_TRUNC} {
@@ -229,12 +244,26 @@ func protoCases(rng *common.RNG, tier, prop string) []protoCase {
 
 func setFile(path, file string) {
 	os.Remove(path)
+	switch file {
+	case "fifo":
+		unix.Mkfifo(path, 0o666)
+		return
+	case "chardev":
+		unix.Mknod(path, unix.S_IFCHR|0o666, int(unix.Mkdev(1, 3))) // a private /dev/null
+		return
+	}
 	if file != "absent" {
 		os.WriteFile(path, common.UnHex(file), 0o666)
 	}
 }
 
 func getFile(path string) string {
+	if fi, err := os.Lstat(path); err == nil && !fi.Mode().IsRegular() {
+		if fi.Mode()&os.ModeNamedPipe != 0 {
+			return "fifo"
+		}
+		return "chardev"
+	}
 	b, err := os.ReadFile(path)
 	if err != nil {
 		return "absent"
@@ -246,6 +275,9 @@ func getFile(path string) string {
 func runProtoCase(self, work string, m *common.Model, c protoCase, inject string) (impl, model string, rules []string, raw string, err error) {
 	path := filepath.Join(work, "proto-file")
 	setFile(path, c.File)
+	if (c.File == "fifo" || c.File == "chardev") && getFile(path) != c.File {
+		return "", "", nil, "", fmt.Errorf("cannot create a %s here (skipped)", c.File)
+	}
 	result, evs, raw, err := straceCall(self, work, c.Call, path, c.Arg, inject, []string{"GOMAXPROCS=1"})
 	if err != nil {
 		return "", "", nil, raw, err
@@ -260,6 +292,9 @@ func runProtoCase(self, work string, m *common.Model, c protoCase, inject string
 	impl = result + " " + getFile(path) + " | " + tr
 	fl, ok := flagsOfCall(c)
 	rules = traceRules(evs, fl, ok, result)
+	if c.File == "fifo" || c.File == "chardev" {
+		m = nil // the OS model has regular files only: direct rules, no model comparison
+	}
 	if m != nil && inject == "" {
 		ans := m.Ask1(fmt.Sprintf("ops %s %s %s", c.Call, c.Arg, c.File))
 		o, f, t, e := canonModel(ans)
